@@ -70,6 +70,8 @@ type GenRep struct {
 	// BothSizes writes the sample size of a one-sample fragment (stpp) into tfhd.default_sample_size as well as
 	// into the trun (both are legal together; the trun value wins for every parser).
 	BothSizes bool
+	// TTMLApos writes the begin/end attributes of the stpp documents with apostrophes (begin='...'), which XML allows.
+	TTMLApos bool
 	// Jitter makes sample durations non-constant (+1/-1 tick on the first two samples of every segment; the
 	// segment durations are unchanged). loadAsset rejects such an audio representation ("does not have (known)
 	// constant sample duration").
@@ -386,11 +388,15 @@ func (r GenRep) StppDoc(k int, shiftMS uint64) []byte { return r.stppDoc(k, shif
 func (r GenRep) stppDoc(k int, shiftMS uint64) []byte {
 	b := r.Start(k) * 1000 / uint64(r.Timescale)
 	e := r.End(k) * 1000 / uint64(r.Timescale)
+	q := `"`
+	if r.TTMLApos {
+		q = "'"
+	}
 	return []byte(fmt.Sprintf(`<?xml version="1.0" encoding="UTF-8"?>
 <tt xmlns="http://www.w3.org/ns/ttml" xml:lang="en"><body><div>
-<p xml:id="%s-%d" begin="%s" end="%s">assetgen %x segment %d</p>
+<p xml:id="%s-%d" begin=%s%s%s end=%s%s%s>assetgen %x segment %d</p>
 </div></body></tt>
-`, r.ID, k, msStamp(b+shiftMS), msStamp(e+shiftMS), GenSamplePayload(r.ID, uint64(k)), k))
+`, r.ID, k, q, msStamp(b+shiftMS), q, q, msStamp(e+shiftMS), q, GenSamplePayload(r.ID, uint64(k)), k))
 }
 
 // PayloadHash is the SHA-256 (hex) over the concatenated data of the given samples, i.e. the value
